@@ -160,6 +160,32 @@ pub fn judge_wide(sut: &dyn Sut, c: &Case, stats: &mut Stats) -> Result<(), Stri
         }
     }
     stats.sample(|| json!({"wgsl": c.wgsl, "include_path": c.include_path, "rustfmt": c.rustfmt}));
+    // with the formatter option on, the constant must also be exact when no formatter can be spawned
+    // (a sample of the cases: one worker process each, with an empty PATH directory)
+    if c.rustfmt && hash_str(&c.wgsl) % 8 == 0 {
+        let req = crate::worker::gen_request(&c.wgsl, None, &opts);
+        let env = vec![("PATH".to_string(), format!("{VERIF_DIR}/stubs/empty"))];
+        let r = crate::worker::run_child(&crate::worker::ChildSpec { cmd: "gen", request: &req, env_clear: true, env, cwd: Some(std::path::Path::new("/")), cpu_limit_s: 60, wall_limit_s: 120.0 });
+        stats.class("formatter_on_but_absent");
+        match r.response.as_ref().and_then(|v| crate::worker::woutcome_from_json(&v["outcome"])) {
+            Some(crate::worker::WOutcome::Ok(text)) => {
+                let o = outread::read(&text).map_err(|e| format!("formatter option on, no formatter available: {e}\n{}", ctx()))?;
+                match &o.source {
+                    SourceKind::Literal(s) if s == &c.wgsl => {}
+                    SourceKind::Unknown(_) => {}
+                    other => {
+                        let d = format!("{other:?}");
+                        return Err(format!("formatter option on, no formatter available: SOURCE is {} instead of the source text\n{}", d.chars().take(200).collect::<String>(), ctx()));
+                    }
+                }
+            }
+            Some(other) => return Err(format!("formatter option on, no formatter available: the call returned {} where it returns Ok with a formatter\n{}", other.brief(), ctx())),
+            None => {
+                eprintln!("C16 infrastructure: worker produced no result (exit {:?} signal {:?}) {}", r.exit_code, r.signal, r.stderr);
+                std::process::exit(2);
+            }
+        }
+    }
     if let Some(path) = &c.include_path {
         stats.class("include_variant");
         let inc = match sut.generate(&c.wgsl, Some(path), &opts) {
